@@ -756,7 +756,20 @@ class BinaryOp(Expr):
         return result
 
     def _eval_string(self):
-        return self.left.eval() + self.right.eval()
+        left = self.left.eval()
+        right = self.right.eval()
+        if self.op.is_comparison:
+            # same ordering the cmp instruction applies to two strings
+            result = {
+                Operator.CMP_EQ: left == right,
+                Operator.CMP_NE: left != right,
+                Operator.CMP_LT: left < right,
+                Operator.CMP_GT: left > right,
+                Operator.CMP_LE: left <= right,
+                Operator.CMP_GE: left >= right,
+            }[self.op]
+            return -1 if result else 0
+        return left + right
 
     def _qb_mod(self, a, b):
         a = int(round(a))
